@@ -13,8 +13,8 @@ from ..observe import arun as _arun
 
 ID = "C16"
 LEVEL = "exploration"
-BUDGET = {"quick": 1600, "thorough": 40000}
-SHARDS = {"quick": 8, "thorough": 16}
+BUDGET = {"quick": 4800, "thorough": 40000}
+SHARDS = {"quick": 16, "thorough": 16}
 RULE = (
     "Part A: Hypothesis-generated acyclic programs (3-8 nodes; some nodes emit ordering signals that others wait for; optionally a "
     "failing node or a pausing interrupt; optionally an interval nested with an inner select) x an entry-point set of 1-2 nodes "
